@@ -368,6 +368,8 @@ def run_property(pid, tier, seed, replay=None):
         return c
 
     # ---- report disagreements (first few distinct ones)
+    # fast reporting for mutation campaigns on scratch copies: first violation only, no shrinking, no probe
+    FAST = SCRATCH and (os.environ.get('VERIF_FAST_REPORT') or os.path.exists(os.path.join(VERIF, '.fast_scratch')))
     reported = 0
     # A module whose oracle() DECIDES the property on a case (ORACLE_DECIDES = True) may have a model
     # that is finer than the property (e.g. the order of random draws in C17).  A disagreement on
@@ -385,10 +387,10 @@ def run_property(pid, tier, seed, replay=None):
         if km:
             known_lines.append('KNOWN-FINDING: property=%s %s' % (pid, km.get('what', '')))
             continue
-        if reported >= 3:
+        if reported >= (1 if FAST else 3):
             continue
         try:
-            c2 = shrink(c)
+            c2 = c if FAST else shrink(c)
         except Exception:
             c2 = c
         obs, term, agree_alone = eval_case(c2)
@@ -398,7 +400,7 @@ def run_property(pid, tier, seed, replay=None):
             'case': c2, 'original_case': c, 'impl_observation': obs,
             'model_expected_coq': expected, 'coq_case_term': term,
             'theorems': obl['theorems']}
-        if not replay and not agree_alone:
+        if not replay and not agree_alone and not FAST:
             # does it also disagree in a FRESH process, on its own?
             try:
                 tmp = os.path.join(VERIF, REPLAY_DIR, '_probe_%s_%d.json' % (pid, os.getpid()))
